@@ -33,6 +33,7 @@ MODEL_FILE = "Ampverif/Model/C04Frames.lean"
 MATRICES = ["RotZ", "RotY", "BoostZ"]
 MAX_REPLAYS = 4
 D1_IDX = [(1, "p"), (0, "z"), (-1, "m")]  # row/column order of the generated D¹ matrix
+DH_IDX = [(1, "p"), (-1, "m")]  # doubled projections of the generated D^{1/2} matrix
 
 
 # ----------------------------------------------------------------------------- T1 definitions
@@ -114,6 +115,24 @@ def build_definitions():
                 return out
 
             reals[dn] = ref
+    # Wigner D^{1/2} entries of the installed SymPy (index order +1/2, -1/2)
+    half = sp.Rational(1, 2)
+    for m, mn in DH_IDX:
+        for mp, mpn in DH_IDX:
+            e = Rotation.D(half, m * half, mp * half, al, be, ga).doit()
+            dn = f"Dh_{mn}_{mpn}"
+            defs.append(core.Definition(dn, ["al", "be", "ga"], tr(e), ty="complex",
+                                        doc=f"Rotation.D(1/2, {m}/2, {mp}/2, al, be, ga).doit() of the installed SymPy"))
+            f = sp.lambdify([al, be, ga], e, "numpy")
+
+            def ref(points, f=f):
+                out = []
+                for pt in points:
+                    v = complex(f(*pt))
+                    out.append([v.real, v.imag])
+                return out
+
+            reals[dn] = ref
     # structural facts about the SymPy D-function: D^j_{m m'}(α,β,γ) = e^{-imα} d^j_{m m'}(β) e^{-im'γ}
     ok = True
     for j2 in range(0, 5):  # j = 0, 1/2, ..., 2
@@ -146,6 +165,9 @@ def _assemblies() -> str:
     rows = ";\n    ".join(", ".join(f"D1_{mn}_{mpn} al be ga" for _, mpn in D1_IDX) for _, mn in D1_IDX)
     out.append("/-- SymPy's D¹(α,β,γ), rows/columns ordered m = +1, 0, −1 -/\n"
                f"noncomputable def D1 (al be ga : ℝ) : Matrix (Fin 3) (Fin 3) ℂ :=\n  !![{rows}]\n")
+    rows = ";\n    ".join(", ".join(f"Dh_{mn}_{mpn} al be ga" for _, mpn in DH_IDX) for _, mn in DH_IDX)
+    out.append("/-- SymPy's D^{1/2}(α,β,γ), rows/columns ordered m = +1/2, −1/2 -/\n"
+               f"noncomputable def Dh (al be ga : ℝ) : Matrix (Fin 2) (Fin 2) ℂ :=\n  !![{rows}]\n")
     return "\n".join(out)
 
 
@@ -413,11 +435,12 @@ class C04Property:
         ])
         chk.assumptions += [
             "layer (A) theorems are conditional on the structure WignerRep (unitary, multiplicative, diagonal on z-rotations); "
-            "instances are constructed for J = 0 and J = 1 only (J = 1 from SymPy's D^1 entries); for other spins the "
-            "representation property of SymPy's Wigner-D is executed (oracle), not proved",
-            "arbitrary trees: proved for spinless final states given the frame relation `Rotated` (established level by level by the "
-            "kinematic lemmas, not packaged as one induction over momentum trees); C04_full_statement (single topology with spinful "
-            "final states on arbitrary trees) is stated, not proved; two-level chains are proved at event level",
+            "instances (WignerRep / RepFamily) are constructed for J = 0 and J = 1 only (J = 1 from SymPy's D^1 entries); J = 1/2: unitary, "
+            "z-diagonal, homomorphism up to sign proved on the regenerated matrix; J <= 5/2: unitarity from C05's regenerated d-tables; beyond that "
+            "the representation property of SymPy's Wigner-D is executed (oracle), not proved",
+            "arbitrary trees: C04_full_statement is proved (C04_full_trees) and tied to the event kinematics (C04_end_to_end) in the sound "
+            "convention (a node's angles are those of its first child); integer spins only — half-integer spins need a representation of the "
+            "double cover (C04_I_no_spin_half_representation_of_SO3); genericity guards EventOK",
         ]
         chk.coverage["rule"] = (
             "evaluations = translator-validation points + line-protocol requests' cases + 2 x (events per oracle case); "
@@ -463,32 +486,39 @@ MANIFEST = {
     "design_ref": "DESIGN.md §3 C04 (layers K, A, I, W), §2.6, §2.7, §2.9",
     "text": (
         "Proof, layered; every run regenerates Gen/C04.lean from the working tree and the kernel re-checks the theorems of Props/C04.lean. "
-        "(K) UNCONDITIONAL, all real arguments: RotZ/RotY additivity and BoostZ.RotZ = RotZ.BoostZ on the matrices regenerated from "
-        "RotationZMatrix/RotationYMatrix/BoostZMatrix.as_explicit(); h(v) = Rz(Phi v)Ry(Theta v) maps z to v/|v| for every v != 0 with the "
-        "regenerated Phi = atan2(py,px), Theta = acos(pz/|p|); the source's chain BoostZ(|p|/E).RotY(-Theta).RotZ(-Phi) takes a time-like "
-        "subsystem to (m,0,0,0); key lemma: a proper rotation fixing z is Rz(delta); hence for every proper rotation R the production frame "
-        "becomes R.h.Rz(-delta) and ALL child-frame momenta are rotated by RotZ(delta) with the same delta, polar angles unchanged, azimuths "
-        "shifted by delta, the next helicity frame absorbs RotZ(delta) so that every deeper momentum and angle coincides, and the frame of a "
-        "back-to-back second child turns by Rz(+delta). "
-        "(A) CONDITIONAL on a structure of hypotheses (not axioms) — WignerRep (unitary, multiplicative, diagonal on z-rotations; two-level chains, "
-        "any dimensions) resp. RepFamily (the same for a family of integer spins; arbitrary trees): |vV|^2 = |v|^2 for unitary V; the amplitude of a "
-        "tree of ANY depth and shape (cascade or two-resonance) with spinless final states transforms as A_m -> sum conj D_{mm'}(R) A_{m'} "
-        "(structural induction), so the unpolarised intensity of the coherent sum over any finite set of topologies is invariant; for two-level "
-        "chains also with a spectator of any spin (unit phase e^{i s delta}) and, single topology, under ANY sign convention between D-function "
-        "index and child helicity (this covers the pinned source's opposite-helicity convention and explains why every single topology is invariant). "
-        "(I) UNCONDITIONAL: SymPy's Rotation.D(1,m,m',a,b,g).doit() (regenerated, 9 entries) equals U.Rz(a)Ry(b)Rz(g).U^dagger, so it is unitary, "
-        "diag(e^{-ia},1,e^{ia}) on z-rotations and multiplicative in the rotation; with J=0 this gives the family F01, making the tree theorem "
-        "unconditional for all trees whose spins are 0 or 1 (C04_partial_J01_all_trees) and the event-level three-body theorems unconditional for "
-        "J/psi -> rho pi-type reactions (C04_partial_J1_two_topologies). "
-        "(KA) events: for every proper rotation applied to the subsystem and child four-momenta the two-level (three-body) intensity computed through "
-        "the regenerated Phi/Theta and matrices is invariant (single topology; several topologies for spinless final states). "
-        "(W) the pinned source's convention for a decaying opposite-helicity child is proved to rephase the couplings by e^{2 i lambda delta}; "
-        "the executable model (validated against the real code each run) classifies 0(12) as such a topology and (01)2,(02)1 as not. "
-        "PARTIAL: C04_full_statement (single topology with spinful final states on arbitrary trees) is a definition, not proved; the kinematic "
-        "lemmas establish the frame relation `Rotated` level by level but are not packaged into one induction over momentum trees; spins other than "
-        "0,1 rest on the representation hypotheses; half-integer spins (double cover) are outside the algebraic layer. NUMERIC ONLY (oracle on the real "
-        "code, every run): spin-1/2 reactions, photon final states, AxisAngleAlignment and DalitzPlotDecomposition models, 4-body real models "
-        "(cascades, two-resonance, two cascades coherently), and the non-invariance witnesses of the three known classes."
+        "(K) UNCONDITIONAL, all real arguments, on the matrices regenerated from RotationZMatrix/RotationYMatrix/BoostZMatrix.as_explicit() and the "
+        "regenerated Phi = atan2(py,px), Theta = acos(pz/|p|): RotZ/RotY additivity, BoostZ.RotZ = RotZ.BoostZ; h(v) = Rz(Phi v)Ry(Theta v) maps z to "
+        "v/|v|; the source's chain BoostZ(|p|/E).RotY(-Theta).RotZ(-Phi) takes a time-like subsystem to (m,0,0,0); key lemma: a proper rotation fixing z "
+        "is Rz(delta); and, packaged over momentum trees (MTree, framesOf = the source's recursion in the sound convention), C04_K_all_helicity_frames: "
+        "for EVERY isobar tree and event, all helicity frames (hence all helicity angles) of the rotated event equal those of the original except the "
+        "root frame (R.h.Rz(-delta)) and the first frame below the root in each child subtree (Rz(+-delta).h: polar angle unchanged, azimuth shifted), "
+        "every deeper frame identical. "
+        "(A) CONDITIONAL on a structure of hypotheses (not axioms), WignerRep resp. RepFamily (unitary, multiplicative, diagonal on z-rotations, for "
+        "the integer spins it provides): the amplitude of a tree of ANY depth and shape transforms as A_m -> Phi . sum conj D_{mm'}(R) A_{m'} with a "
+        "unit phase Phi per final-state helicity configuration (Phi = 1 for spinless final states), so C04_full_trees (= C04_full_statement, now "
+        "PROVED): the unpolarised intensity is invariant for any finite set of topologies with spinless final states and for a single topology with "
+        "final states of any provided spin. "
+        "END TO END (C04_end_to_end): from the final-state four-momenta of arbitrary trees in the initial-state rest frame, through the regenerated "
+        "angle and matrix definitions, to the intensity; conditional on RepFamily only; C04_end_to_end_J01 UNCONDITIONAL for all spins in {0,1}. "
+        "Two-level chains additionally: spectator of any spin, single topology under ANY sign convention between D-function index and child helicity "
+        "(covers the pinned source's opposite-helicity convention and explains why every single topology is invariant). "
+        "(I) UNCONDITIONAL instances from regenerated SymPy entries: D^1 = U.Rz(a)Ry(b)Rz(g).U^dagger (unitary, z-diagonal, homomorphism); "
+        "D^{1/2} (2x2): unitary, z-diagonal diag(e^{-ia/2},e^{ia/2}), its adjoint action on v.sigma is the Euler rotation (covering SU(2)->SO(3)), "
+        "homomorphism UP TO THE SIGN (if the Euler rotations compose, the D^{1/2} compose up to +-), the sign is real (a full turn flips D^{1/2}, "
+        "not D^1), hence no representation of rotation MATRICES with weight 1/2 exists; unitarity of e^{-ima} d^J e^{-im'g} for all J <= 5/2 from the "
+        "d-tables regenerated by C05 (J = 3/2, 2 stated separately). "
+        "(W) the pinned source's convention for a decaying opposite-helicity child rephases the couplings by e^{2 i lambda delta} (proved); the "
+        "executable model classifies 0(12) as such a topology and (01)2,(02)1 as not; the atan2 branch cut (Phi = pi on the negative x axis, phi just "
+        "above, -phi just below, continuation 2pi - phi) flips the sign of D^{1/2} and not of D^1 — the mechanism of the half-integer axis-angle class. "
+        "NOT PROVED: half-integer spins in the tree theorems (they need a family on the double cover; only the J = 1/2 matrix facts above are proved); "
+        "homomorphism for J >= 3/2 (only unitarity); the source's deviation from the sound convention (decaying opposite-helicity child) is "
+        "characterised, not covered by the end-to-end theorem; genericity guards (no subsystem momentum on a frame's z axis, non-zero momenta). "
+        "CORRESPONDENCE ONLY (real code vs executable model, every run): the frame chains, the D-function of every "
+        "node and the wiring of the axis-angle alignment sums. "
+        "NUMERIC ONLY (oracle on the real code, every run; quick tier includes an axis-angle two-topology integer-spin model with a spin-1 final state "
+        "below a resonance, on uniform phase space and on an ultra-relativistic family where Wigner rotations exceed 90 degrees): spin-1/2 reactions, "
+        "photon final states, AxisAngleAlignment and DalitzPlotDecomposition models, 4-body real models, and the non-invariance witnesses of the three "
+        "known classes."
     ),
     "level_note": (
         "Trusted: Lean kernel + Mathlib (axioms propext, Classical.choice, Quot.sound); translator (core + c04_ext: ComplexSqrt read as the real "
